@@ -150,6 +150,31 @@ var trConfs = []trConf{
 		returns: map[string]string{"return nil": ".unchanged", "return err": ".error",
 			"return fmt.Errorf(\"limit for bridge transfer reached %v\", limits.Limit)": ".rejected",
 			"return keeperutil.Save(st, k.cdc, []byte(coin.Denom), &newUsage)": ".saved newUsage_Total newUsage_StartBlockHeight"}},
+	{key: "x/scheduler/keeper.Keeper.ScheduleNow", lean: "scheduleNow", ret: "SchedOutcome",
+		prelude: "/-- what `ScheduleNow` does with an execution request: refuse it (1 no such job, 2 payload supplied for a job whose payload is fixed,\n    3 the chain bridge's `ExecuteJob` failed) or hand the job's definition to the bridge with the stored payload / the supplied one -/\ninductive SchedOutcome where\n  | rejected (code : Nat)\n  | scheduled (supplied : Bool)\nderiving DecidableEq, Repr",
+		params: []trParam{{"jobFound", "Bool"}, {"modifiable", "Bool"}, {"inNil", "Bool"}, {"inLen", "Int"}, {"executeFails", "Bool"}},
+		init:   []string{"let mut err : Nat := 0", "let mut useSupplied : Bool := false"},
+		atoms: map[string]string{"err != nil": "err != 0", "len(in)": "inLen", "job.GetIsPayloadModifiable()": "modifiable", "in != nil": "!inNil"},
+		skip: []string{"router := job.GetRouting()", "chain := k.Chains[router.GetChainType()]", "payload := job.GetPayload()",
+			"jcfg := &xchain.JobConfiguration{ Definition: job.GetDefinition(), Payload: payload, SenderAddress: senderAddress, ContractAddress: contractAddress, RefID: router.GetChainReferenceID(), Requirements: xchain.JobRequirements{ EnforceMEVRelay: job.EnforceMEVRelay, }, }"},
+		stmts: map[string][]string{
+			"job, err := k.GetJob(ctx, jobID)":          {"err := if jobFound then 0 else 1"},
+			"payload = in":                              {"useSupplied := true"},
+			"msgID, err := chain.ExecuteJob(ctx, jcfg)": {"err := if executeFails then 3 else 0"},
+		},
+		returns: map[string]string{"return 0, err": ".rejected err",
+			"return 0, types.ErrCannotModifyJobPayload.Wrapf(\"jobID: %s\", jobID)": ".rejected 2",
+			"return msgID, nil": ".scheduled useSupplied"}},
+	{key: "x/evm/keeper.zeroPadBytes", lean: "zeroPadBytes", ret: "Option (List UInt8)",
+		params:  []trParam{{"input", "List UInt8"}, {"size", "Int"}},
+		returns: map[string]string{"return nil, whoops.String(fmt.Sprintf(\"Can not zero pad byte array of size %d to %d\", inputLen, size))": "none", "return ret, nil": "some ret"}},
+	{key: "x/evm/keeper.injectSenderIntoPayload", lean: "injectSenderIntoPayload", ret: "Option (List UInt8)",
+		params: []trParam{{"senderBytes", "List UInt8"}, {"payload", "List UInt8"}},
+		init:   []string{"let mut err : Nat := 0", "let mut appendSenderBytes : List UInt8 := []"},
+		atoms:  map[string]string{"err != nil": "err != 0"},
+		stmts: map[string][]string{"appendSenderBytes, err := zeroPadBytes(senderBytes, 32)": {
+			"err := if (zeroPadBytes senderBytes 32).isNone then 1 else 0", "appendSenderBytes := (zeroPadBytes senderBytes 32).getD []"}},
+		returns: map[string]string{"return nil, err": "none", "return append(payload, appendSenderBytes...), nil": "some (payload ++ appendSenderBytes)"}},
 	{key: "x/metrix/keeper.calculateUptime", lean: "calculateUptimeGuard", ret: "Bool",
 		params: []trParam{{"window", "Int"}, {"missed", "Int"}},
 		// only the guard is arithmetic; the division goes through big.Float (modelled in C14's score arithmetic)
@@ -251,6 +276,8 @@ func (c *trCtx) leanType(t types.Type) string {
 		return "Int"
 	case s == "bool":
 		return "Bool"
+	case s == "[]byte" || s == "[]uint8":
+		return "List UInt8"
 	}
 	if n, ok := t.Underlying().(*types.Basic); ok {
 		switch n.Kind() {
@@ -425,6 +452,18 @@ func (c *trCtx) expr(e ast.Expr) string {
 		switch fun {
 		case "len":
 			return "((" + c.expr(x.Args[0]) + ").length : Int)"
+		case "make":
+			// make([]byte, n): n zero bytes
+			if len(x.Args) == 2 {
+				if tv, ok := c.fi.pkg.TypesInfo.Types[x.Args[0]]; ok && c.leanType(tv.Type) == "List UInt8" {
+					return "(List.replicate (Int.toNat " + c.expr(x.Args[1]) + ") (0 : UInt8))"
+				}
+			}
+		case "append":
+			// append(a, b...): concatenation (the aliasing of Go's append is not modelled: the result is only returned)
+			if len(x.Args) == 2 && x.Ellipsis.IsValid() {
+				return "(" + c.expr(x.Args[0]) + " ++ " + c.expr(x.Args[1]) + ")"
+			}
 		case "max":
 			if len(x.Args) == 2 {
 				return "(max " + c.expr(x.Args[0]) + " " + c.expr(x.Args[1]) + ")"
@@ -802,10 +841,37 @@ func (c *trCtx) block(stmts []ast.Stmt, ind string, out *[]string) {
 					c.block(deflt, ind+"  ", out)
 				}
 			}
+		case *ast.ExprStmt:
+			// logging and event emission change no state and decide nothing: left out
+			if isLogOrEvent(text) {
+				continue
+			}
+			// copy(dst[a:], src): Go copies min(len(dst)-a, len(src)) elements
+			if ce, ok := s.X.(*ast.CallExpr); ok && src(ce.Fun) == "copy" && len(ce.Args) == 2 {
+				if sl, ok := ce.Args[0].(*ast.SliceExpr); ok && sl.High == nil && sl.Low != nil {
+					if id, ok := sl.X.(*ast.Ident); ok {
+						a, from := "(Int.toNat "+c.expr(sl.Low)+")", c.expr(ce.Args[1])
+						emit(fmt.Sprintf("%s := %s.take %s ++ %s.take (%s.length - %s) ++ %s.drop (%s + min %s.length (%s.length - %s))",
+							id.Name, id.Name, a, from, id.Name, a, id.Name, a, from, id.Name, a))
+						continue
+					}
+				}
+			}
+			c.fail("statement %s", text)
 		default:
 			c.fail("statement %s", text)
 		}
 	}
+}
+
+// statements that only log or emit an event
+func isLogOrEvent(text string) bool {
+	for _, p := range []string{"k.Logger(ctx).", "logger.", "liblog.FromSDKLogger(", "keeperutil.EmitEvent("} {
+		if strings.HasPrefix(text, p) {
+			return true
+		}
+	}
+	return false
 }
 
 func prime(xs []string) []string {
